@@ -12,7 +12,7 @@
  *
  * building operations (F = file slot 0..3; file name <hist>_<F>.hdf; hex "-" = empty):
  *   hopen F ndds cache | hclose F | snap F G (Hsync + flush, copy the bytes on disk to slot G)
- *   put F tag ref hex | lb F tag ref blen nblk n hex.. | app F tag ref hex | ext F tag ref name off hex
+ *   put F tag ref hex | lb F tag ref blen nblk n hex.. | lbs F tag ref blen nblk n (pos hex).. | app F tag ref hex | ext F tag ref name off hex
  *   comp F tag ref coder p hex | chunk F tag ref nt nd d.. c.. coder p fillhex nw (o.. hex).. | chunkhint F tag ref nd n..
  *   dup F tag ref otag oref | del F tag ref
  *   vs F slot il blk nf (namehex type order).. nrec hex | vsapp F slot nrec hex | vsattr F slot findex namehex nt cnt hex
@@ -377,6 +377,16 @@ static void run_op(long ln)
         int32 aid = F_OPEN(F) ? HLcreate(fid[F], tag, ref, bl, nb) : FAIL;
         ok = aid != FAIL;
         for (int i = 0; i < nw && ok; i++) { int n = unhex(args(), databuf); if (n > 0) ok = Hwrite(aid, n, databuf) == n; }
+        if (aid != FAIL) Hendaccess(aid);
+    }
+    else if (!strcmp(op, "lbs")) {      /* linked blocks written at positions: lbs F tag ref bl nb n (pos hex).. */
+        int F = argl(), tag = argl(), ref = argl(), bl = argl(), nb = argl(), nw = argl();
+        int32 aid = F_OPEN(F) ? HLcreate(fid[F], tag, ref, bl, nb) : FAIL;
+        ok = aid != FAIL;
+        for (int i = 0; i < nw && ok; i++) {
+            int pos = argl(); int n = unhex(args(), databuf);
+            ok = Hseek(aid, pos, DF_START) != FAIL && (n == 0 || Hwrite(aid, n, databuf) == n);
+        }
         if (aid != FAIL) Hendaccess(aid);
     }
     else if (!strcmp(op, "app")) {
